@@ -17,6 +17,7 @@ package afero
 
 import (
 	"bytes"
+	"errors"
 	"io"
 	"os"
 	"path/filepath"
@@ -162,11 +163,26 @@ func nextRandom() string {
 	return strconv.Itoa(int(1e9 + r%1e9))[1:]
 }
 
+// errPatternHasSeparator is returned by TempFile and TempDir for a pattern that
+// would place the new entry somewhere else than directly in dir.
+var errPatternHasSeparator = errors.New("pattern contains path separator")
+
+// hasPathSeparator reports whether s contains a path separator.
+func hasPathSeparator(s string) bool {
+	for i := 0; i < len(s); i++ {
+		if os.IsPathSeparator(s[i]) {
+			return true
+		}
+	}
+	return false
+}
+
 // TempFile creates a new temporary file in the directory dir,
 // opens the file for reading and writing, and returns the resulting *os.File.
 // The filename is generated by taking pattern and adding a random
 // string to the end. If pattern includes a "*", the random string
-// replaces the last "*".
+// replaces the last "*". It is an error for pattern to contain a path
+// separator, as it is for os.CreateTemp.
 // If dir is the empty string, TempFile uses the default directory
 // for temporary files (see os.TempDir).
 // Multiple programs calling TempFile simultaneously
@@ -180,6 +196,10 @@ func (a Afero) TempFile(dir, pattern string) (f File, err error) {
 func TempFile(fs Fs, dir, pattern string) (f File, err error) {
 	if dir == "" {
 		dir = os.TempDir()
+	}
+
+	if hasPathSeparator(pattern) {
+		return nil, &os.PathError{Op: "createtemp", Path: pattern, Err: errPatternHasSeparator}
 	}
 
 	var prefix, suffix string
@@ -210,6 +230,7 @@ func TempFile(fs Fs, dir, pattern string) (f File, err error) {
 // with a name beginning with prefix and returns the path of the
 // new directory.  If dir is the empty string, TempDir uses the
 // default directory for temporary files (see os.TempDir).
+// It is an error for prefix to contain a path separator.
 // Multiple programs calling TempDir simultaneously
 // will not choose the same directory.  It is the caller's responsibility
 // to remove the directory when no longer needed.
@@ -220,6 +241,10 @@ func (a Afero) TempDir(dir, prefix string) (name string, err error) {
 func TempDir(fs Fs, dir, prefix string) (name string, err error) {
 	if dir == "" {
 		dir = os.TempDir()
+	}
+
+	if hasPathSeparator(prefix) {
+		return "", &os.PathError{Op: "mkdirtemp", Path: prefix, Err: errPatternHasSeparator}
 	}
 
 	nconflict := 0
